@@ -1747,19 +1747,23 @@ def expand_grapheme(st, g, checks, minrep, minlen, depth=0):
 
 
 @guarded
-def q05r(ctx, n=4, clause='notation', letters=False):
+def q05r(ctx, n=4, clause='notation', letters=False, tokens=False):
     """Q05r/Q13r: GraphemeCluster::convert_repetitions is a notation change (Q05r) that honours both thresholds (Q13r)"""
     name = {'notation': 'Q05r', 'thresholds': 'Q13r'}[clause]
-    ob = Obligation('%s[n=%d]%s' % (name, n, '[letters]' if letters else ''),
+    ob = Obligation('%s[n=%d]%s%s' % (name, n, '[tokens]' if tokens else '', '[letters]' if letters else ''),
                     {'notation': 'Q05r: expanding every {k} unit of the converted cluster (and its nested rendering) gives back the original grapheme sequence',
                      'thresholds': 'Q13r: every quantified unit of the converted cluster, at any nesting depth, has a count > minimum_repetitions and spans >= minimum_substring_length graphemes'}[clause])
-    ob.domain = ('a cluster of %d one-code-point graphemes, %s each (all equality patterns); minimum_repetitions and '
-                 'minimum_substring_length: every u32 >= 1; other settings arbitrary' % (n, 'a..z' if letters else 'every scalar value'))
+    ob.domain = ('a cluster of %d graphemes, each %s (all equality patterns); minimum_repetitions and '
+                 'minimum_substring_length: every u32 >= 1; other settings arbitrary' % (
+                     n, 'a shorthand-class token \\d \\D \\s \\S \\w \\W (one original character, two code points in the unit)' if tokens
+                     else ('one letter a..z' if letters else 'one code point, every scalar value')))
     ob.bound = 'clusters of exactly %d graphemes, one code point each' % n
     cs = [z3.BitVec('g%d' % i, 32) for i in range(n)]
     assume = [valid_char(c) for c in cs]
     if letters:
         assume += [z3.And(z3.UGE(c, BV(0x61, 32)), z3.ULE(c, BV(0x7A, 32))) for c in cs]
+    if tokens:
+        assume += [z3.Or(*[c == BV(x, 32) for x in CLASS_LETTERS]) for c in cs]
     ex = ctx.new_exec()
     st = State(pc=list(assume))
     cfgv = config_value(ctx)
@@ -1768,15 +1772,19 @@ def q05r(ctx, n=4, clause='notation', letters=False):
     assume += [minrep != 0, minlen != 0]
     cfg = st.ref(cfgv)
     flags = (cfgv.get('is_capturing_group_enabled'), cfgv.get('is_output_colorized'), cfgv.get('is_verbose_mode_enabled'))
-    gs = [grapheme_value(ctx, st, [[c]], 1, 1, flags) for c in cs]
+    gs = [grapheme_value(ctx, st, [[BV(92, 32), c] if tokens else [c]], 1, 1, flags) for c in cs]
     cl = st.ref(cluster_value(ctx, st, gs, cfg))
     fn = ctx.mir.one_fn(r'^cluster::<impl at [^>]*>::convert_repetitions$')
     t0 = time.time()
     outs = ex.run_fn(st, fn, [cl])
     ctx.finish(ob, ex, t0)
     ob.paths = len(outs)
-    orig = [(c,) for c in cs]
+    orig = [((BV(92, 32), c) if tokens else (c,)) for c in cs]
     bads = []
+    # a feasible failing edge of a checked-arithmetic assert = a panic in a debug build and silent wrap-around in a release build
+    for pc, where, msg in ex.cut_panics:
+        bads.append(z3.And(*pc))
+        ob.classes_seen['arithmetic-panic-edge'] = ob.classes_seen.get('arithmetic-panic-edge', 0) + 1
     for o in outs:
         if o.panic:
             bads.append(z3.And(*o.st.pc))
@@ -2489,4 +2497,95 @@ def q02e(ctx, lens=(2, 2), with_empty=False, clause='exact', repetitions=False):
     ob.verdict = decide(ob.qid, assume + ob.defs, z3.Or(*bads) if bads else z3.BoolVal(False), allv, all_sat=True,
                         max_models=ctx.cap(name), second=ctx.second, workdir=ctx.workdir,
                         second_timeout_s=getattr(ctx, 'second_timeout', 60), blocker=blocker)
+    return ob
+
+
+# =========================================================================== Q05g  a quantifier applies to the whole unit
+@guarded
+def q05g(ctx, n=2, ranged=False, realisable=False, all_counts=False):
+    """Q05g: Display for a literal holding ONE quantified grapheme: the {k} / {m,k} quantifier applies to the whole unit (multi-character units are grouped)"""
+    ob = Obligation('Q05g[n=%d%s]%s' % (n, ',range' if ranged else '', '[realisable]' if realisable and n > 1 else ''), q05g.__doc__)
+    ob.domain = ('Expression::Literal of one grapheme whose unit has %d code point(s), every scalar value each (no backslash in multi-code-point units: Q07g), '
+                 'repeat count %s; escaping / surrogates / capturing symbolic, verbose and highlighting off' % (n, 'min < max, both 1..=3' if ranged else 'min = max in 2..=3'))
+    ob.bound = 'units of exactly %d code points; counts <= 3' % n
+    cs = [z3.BitVec('c%d' % i, 32) for i in range(n)]
+    assume = [valid_char(c) for c in cs]
+    if n > 1:
+        assume += [c != BV(92, 32) for c in cs]
+    if realisable and n > 1:
+        assume += realisable_unit(ctx, cs)
+        ob.domain += REALISABLE_NOTE
+    variants = ctx.mir.enums.get('Expression')
+    fn = display_fmt_name(ctx, 'Expression')
+    ex = ctx.new_exec()
+    t0 = time.time()
+    bads = []
+    npaths = 0
+    counts = [(a, b) for a in (1, 2, 3) for b in (1, 2, 3) if (a < b if ranged else (a == b and a > 1))]
+    if not all_counts:
+        counts = counts[:1]
+        ob.bound += '; this tier: counts %s only' % (counts[0],)
+    esc0, surr0, cap0 = z3.Bool('cfg_is_non_ascii_char_escaped'), z3.Bool('cfg_is_astral_code_point_converted_to_surrogate'), z3.Bool('cfg_is_capturing_group_enabled')
+    sel = z3.BitVec('count_case', 32)
+    for ci_, (mn, mx) in enumerate(counts):
+        st = State(pc=list(assume))
+        fixed = {'is_output_colorized': z3.BoolVal(False), 'is_verbose_mode_enabled': z3.BoolVal(False)}
+        if not all_counts:
+            # quick tier: capturing groups and surrogate pairs off (both symbolic in the thorough tier)
+            fixed.update({'is_capturing_group_enabled': z3.BoolVal(False), 'is_astral_code_point_converted_to_surrogate': z3.BoolVal(False)})
+        cfgv = config_value(ctx, fixed)
+        cfg = st.ref(cfgv)
+        esc, surr, cap = cfgv.get('is_non_ascii_char_escaped'), cfgv.get('is_astral_code_point_converted_to_surrogate'), cfgv.get('is_capturing_group_enabled')
+        g = grapheme_value(ctx, st, [cs], mn, mx, (cap, z3.BoolVal(False), z3.BoolVal(False)))
+        ast = EnumV('Expression', 'Literal', variants.index('Literal'), (cluster_value(ctx, st, [g], cfg), esc, surr))
+        buf = st.ref(SymStr(()))
+        for o in ex.run_fn(st, fn, [st.ref(ast), buf]):
+            npaths += 1
+            if o.panic:
+                bads.append(z3.And(sel == ci_, *o.st.pc))
+                continue
+            items = list(o.st.load(buf).items)
+            qtxt = '{%d}' % mn if mn == mx else '{%d,%d}' % (mn, mx)
+            q = [ord(ch) for ch in qtxt]
+            if cps(items[-len(q):]) != q:
+                bads.append(z3.And(sel == ci_, *o.st.pc))
+                ob.classes_seen['no-quantifier'] = ob.classes_seen.get('no-quantifier', 0) + 1
+                continue
+            body = items[:-len(q)]
+            grouped = None
+            for opener in ('(?:', '('):
+                op = [ord(ch) for ch in opener]
+                if cps(body[:len(op)]) == op and body and concrete(body[-1]) == ord(')'):
+                    grouped = body[len(op):-1]
+                    break
+            cls = 'grouped' if grouped is not None else 'bare'
+            ob.classes_seen[cls] = ob.classes_seen.get(cls, 0) + 1
+            inner = grouped if grouped is not None else body
+            alts = [literal_text_alternatives(ctx, c, esc, surr) for c in cs]
+
+            def splits(pos, i):
+                if i == n:
+                    return z3.BoolVal(pos == len(inner))
+                ds = []
+                for gd, ref in alts[i]:
+                    L = len(ref)
+                    if pos + L <= len(inner):
+                        ds.append(z3.And(gd, *[a == b for a, b in zip(inner[pos:pos + L], ref)], splits(pos + L, i + 1)))
+                return z3.Or(*ds) if ds else z3.BoolVal(False)
+            okc = splits(0, 0)
+            if grouped is None and n > 1:
+                okc = z3.BoolVal(False)        # a bare multi-character unit: the quantifier binds to its last character only
+            if grouped is None and n == 1:
+                # a bare single character is fine unless its text is a surrogate PAIR (two escapes)
+                okc = z3.And(okc, z3.Not(z3.And(esc, surr, z3.UGE(cs[0], BV(0x10000, 32)))))
+            bads.append(z3.And(sel == ci_, *o.st.pc, z3.Not(okc)))
+    ctx.finish(ob, ex, t0)
+    ob.paths = npaths
+    ob.classes_expected = ['grouped'] if n > 1 else ['bare']
+    ctx.check_classes(ob)
+    vars_ = cs + [esc0, surr0, cap0, sel]
+    ob.extra['count_cases'] = counts
+    ob.verdict = decide(ob.qid, assume + ob.defs + [z3.ULT(sel, BV(len(counts), 32))], z3.Or(*bads), vars_, all_sat=True,
+                        max_models=ctx.cap('Q05g'), second=ctx.second, workdir=ctx.workdir,
+                        second_timeout_s=getattr(ctx, 'second_timeout', 60), block_vars=cs)
     return ob
